@@ -1717,6 +1717,18 @@ Proof.
   - exact H5.
 Qed.
 
+Lemma C06_running_core cs s0 :
+  new_writer o None = (s0, None) ->
+  Forall (fun c => c <> CClose) cs ->
+  Forall (fun x : option err * nat => fst x = None) (run_res o lib_id compress None cs s0) ->
+  PreC (run_st o lib_id compress None cs s0).
+Proof.
+  intros Hnw Hc Hr. apply PreC_of_E.
+  assert (E0 : E init_state s0).
+  { pose proof EJ_new_writer as X. rewrite Hnw in X. apply X. reflexivity. }
+  eapply E_trans; [exact E0|apply E_run; assumption].
+Qed.
+
 End C06.
 
 Lemma o_crc_eff o : o_crc (effective_opts o) = o_crc o.
@@ -1752,3 +1764,114 @@ Proof.
   exists Tpre, Tsum, ss, sos, c1, c2. repeat split; auto.
   eapply Forall_impl; [|exact F]. intro it. apply item_ok_eff.
 Qed.
+
+Theorem C06_running_thm : forall o lib comp cs,
+  let R := W o lib comp None cs in
+  r_new R = None ->
+  Forall (fun x : option err * nat => fst x = None) (r_calls R) ->
+  Forall (fun c => c <> CClose) cs ->
+  let s := r_final R in
+  file_of R = concat (map render_item (rev (w_trace s))) /\
+  w_size s = blen (file_of R) /\
+  w_crc s = (if o_crc o then crc_update crc_init (file_of R) else crc_init).
+Proof.
+  intros o lib comp cs R. subst R. unfold file_of. rewrite W_unfold.
+  destruct (new_writer (effective_opts o) None) as [s0 [e|]] eqn:Enw; cbn [r_new r_calls r_writes r_final];
+    [discriminate|].
+  intros _ H2 H3.
+  destruct (C06_running_core (effective_opts o) lib comp cs s0 Enw H3 H2) as (A & B & C & _).
+  rewrite o_crc_eff in C. repeat split; assumption.
+Qed.
+
+Theorem C06_data_crc_thm : forall o lib comp cs',
+  C06_hyps o lib comp cs' ->
+  let R := W o lib comp None (cs' ++ [CClose]) in
+  exists Tpre Tpost c,
+    rev (w_trace (r_final R)) = Tpre ++ IRec OpDataEnd (enc_dataend {| de_crc := c |}) :: Tpost /\
+    file_of R = concat (map render_item Tpre) ++ render_item (IRec OpDataEnd (enc_dataend {| de_crc := c |}))
+                ++ concat (map render_item Tpost) /\
+    c = (if o_crc o then crc32 (concat (map render_item Tpre)) else 0).
+Proof.
+  intros o lib comp cs' H R.
+  destruct (C06_structure_thm o lib comp cs' H) as (Tpre & Tsum & ss & sos & c1 & c2 & A & B & C & D & F).
+  fold R in A, B. exists Tpre, (Tsum ++ [IFooter ss sos c2; IMagic]), c1.
+  split; [exact A|]. split; [|exact C].
+  rewrite B, A, map_app, concat_app. reflexivity.
+Qed.
+
+Theorem C06_summary_crc_thm : forall o lib comp cs',
+  C06_hyps o lib comp cs' ->
+  let R := W o lib comp None (cs' ++ [CClose]) in
+  exists Tpre c1 Tsum ss sos c,
+    rev (w_trace (r_final R)) =
+      Tpre ++ IRec OpDataEnd (enc_dataend {| de_crc := c1 |}) :: Tsum ++ [IFooter ss sos c; IMagic] /\
+    file_of R = concat (map render_item Tpre) ++ render_item (IRec OpDataEnd (enc_dataend {| de_crc := c1 |}))
+                ++ concat (map render_item Tsum) ++ render_item (IFooter ss sos c) ++ magic /\
+    c = (if o_crc o then crc32 (concat (map render_item Tsum) ++ firstn 25 (render_item (IFooter ss sos c))) else 0).
+Proof.
+  intros o lib comp cs' H R.
+  destruct (C06_structure_thm o lib comp cs' H) as (Tpre & Tsum & ss & sos & c1 & c2 & A & B & C & D & F).
+  fold R in A, B. exists Tpre, c1, Tsum, ss, sos, c2.
+  split; [exact A|]. split; [|exact D].
+  rewrite B, A, map_app, concat_app. cbn [map concat]. rewrite map_app, concat_app. cbn [map concat render_item].
+  rewrite app_nil_r. reflexivity.
+Qed.
+
+Theorem C06_chunk_crc_thm : forall o lib comp cs',
+  C06_hyps o lib comp cs' ->
+  let R := W o lib comp None (cs' ++ [CClose]) in
+  forall k, In (IChunk k) (w_trace (r_final R)) ->
+  exists n plain, k_records k = comp n plain /\ k_usize k = blen plain /\
+                  k_crc k = (if o_crc o then crc32 plain else 0).
+Proof.
+  intros o lib comp cs' H R k Hin.
+  destruct (C06_structure_thm o lib comp cs' H) as (Tpre & Tsum & ss & sos & c1 & c2 & A & B & C & D & F).
+  fold R in F. rewrite Forall_forall in F. exact (F _ Hin).
+Qed.
+
+Theorem C06_attach_crc_thm : forall o lib comp cs',
+  C06_hyps o lib comp cs' ->
+  let R := W o lib comp None (cs' ++ [CClose]) in
+  forall a data crc, In (IAttach a data crc) (w_trace (r_final R)) ->
+  crc = crc32 (enc_attachment_fields a ++ data).
+Proof.
+  intros o lib comp cs' H R a data crc Hin.
+  destruct (C06_structure_thm o lib comp cs' H) as (Tpre & Tsum & ss & sos & c1 & c2 & A & B & C & D & F).
+  fold R in F. rewrite Forall_forall in F. exact (F _ Hin).
+Qed.
+
+(* ------------------------------------------------------------------------- *)
+(* Part 6: a concrete chunked, CRC-enabled workload for non-vacuity examples   *)
+(* ------------------------------------------------------------------------- *)
+Definition ex_o : wopts :=
+  {| o_crc := true; o_chunked := true; o_chunksize := 40; o_comp := []; o_custom := false;
+     o_skip_mi := false; o_skip_stats := false; o_skip_rsh := false; o_skip_rch := false;
+     o_skip_ai := false; o_skip_mdi := false; o_skip_ci := false; o_skip_so := false;
+     o_override_lib := false; o_skip_magic := false |}.
+Definition ex_o_nocrc : wopts :=
+  {| o_crc := false; o_chunked := true; o_chunksize := 40; o_comp := []; o_custom := false;
+     o_skip_mi := false; o_skip_stats := false; o_skip_rsh := false; o_skip_rch := false;
+     o_skip_ai := false; o_skip_mdi := false; o_skip_ci := false; o_skip_so := false;
+     o_override_lib := false; o_skip_magic := false |}.
+Definition ex_lib : bytes := [x6d; x63].
+Definition ex_comp (n : nat) (b : bytes) : bytes := b.
+Definition ex_msg (t : N) : message :=
+  {| m_chan := 1; m_seq := t; m_log := t; m_pub := t; m_data := [x01; x02; x03] |}.
+Definition ex_att : attachment :=
+  {| a_log := 7; a_create := 8; a_name := [x61]; a_media := [x62]; a_size := 3; a_data := [] |}.
+Definition ex_src : asrc := {| as_frags := [[x0a; x0b]; [x0c]]; as_fail := false |}.
+Definition ex_src_fail : asrc := {| as_frags := [[x0a; x0b]; [x0c]]; as_fail := true |}.
+Definition ex_src_short : asrc := {| as_frags := [[x0a; x0b]]; as_fail := false |}.
+Definition ex_cs_pre : list wcall :=
+  [CHeader {| h_profile := []; h_library := [] |};
+   CSchema {| s_id := 1; s_name := [x73]; s_encoding := [x65]; s_data := [x64] |};
+   CChannel {| c_id := 1; c_schema := 1; c_topic := [x74]; c_menc := [x6d]; c_meta := [] |};
+   CMessage (ex_msg 10); CMessage (ex_msg 20); CMessage (ex_msg 30);
+   CAttachment ex_att ex_src;
+   CMetadata {| md_name := [x6e]; md_meta := [([x6b], [x76])] |}].
+Definition ex_cs : list wcall := ex_cs_pre ++ [CClose].
+Definition ex_fault : fault := {| ft_index := 5; ft_mode := FShort; ft_permanent := false |}.
+Definition ex_fault_perm : fault := {| ft_index := 5; ft_mode := FErr; ft_permanent := true |}.
+Definition ex_fault_new : fault := {| ft_index := 0; ft_mode := FErr; ft_permanent := false |}.
+Definition is_chunk (it : item) : bool := match it with IChunk _ => true | _ => false end.
+Definition is_attach (it : item) : bool := match it with IAttach _ _ _ => true | _ => false end.
